@@ -135,17 +135,26 @@ def facts_get_model_from_str(tree):
     need("if hasattr(user_class, '_tx_instrumented'):" in res and "user_class._tx_instrumented -= 1" in res
          and "if user_class._tx_instrumented == 0:" in res and "delattr(user_class, '_tx_instrumented')" in res,
          "_restore_user_attr_methods: decrement / remove-at-zero shape changed")
-    guard = "if not getattr(self, '_tx_user_attr_methods_replaced', False):\n    return" in res.replace("        ", "    ").replace("            ", "        ") \
-        or "if not getattr(self, '_tx_user_attr_methods_replaced', False):" in res
-    if guard:
-        need("self._tx_user_attr_methods_replaced = False" in res and "self._tx_user_attr_methods_replaced = True" in rep,
-             "guarded restore: flag is not set by _replace_user_attr_methods / cleared by _restore_user_attr_methods")
-        rf = find_func(tree, "_restore_user_attr_methods")
-        body = [s for s in rf.body if not (isinstance(s, ast.Expr) and isinstance(s.value, ast.Constant))]
-        need(isinstance(body[0], ast.If) and _u(body[0].body[0]) == "return" and _u(body[1]) == "self._tx_user_attr_methods_replaced = False",
-             "guarded restore: guard is not the first statement")
+    # Guarded restore: each parser records the classes it has instrumented (`_user_classes_replaced`, emptied at the
+    # start of get_model_from_str, appended to by _replace_user_attr_methods) and _restore_user_attr_methods consumes that
+    # record, so a parser that replaced nothing (parse failure) or restored already undoes nothing.
+    rf = find_func(tree, "_restore_user_attr_methods")
+    body = [x for x in rf.body if not (isinstance(x, ast.Expr) and isinstance(x.value, ast.Constant))]
+    loops = [x for x in body if isinstance(x, ast.For)]
+    need(len(loops) == 1 and _u(loops[0].target) == "user_class", "_restore_user_attr_methods: loop over user classes not found")
+    it = _u(loops[0].iter)
+    if it == "self.metamodel.user_classes.values()":
+        need("_user_classes_replaced" not in res, "_restore_user_attr_methods: unrecognised use of the per-parser record")
+        guard = False
     else:
-        need("_tx_user_attr_methods_replaced" not in res, "_restore_user_attr_methods: unrecognised guard")
+        swap = [x for x in body if isinstance(x, ast.Assign) and _u(x.targets[0]).replace(" ", "") == "(%s,self._user_classes_replaced)" % it]
+        need(it == "user_classes" and len(swap) == 1 and body.index(swap[0]) < body.index(loops[0])
+             and _u(swap[0].value).replace(" ", "") == "(self._user_classes_replaced,[])",
+             "_restore_user_attr_methods: the per-parser record is not consumed before the loop")
+        need("self._user_classes_replaced.append(user_class)" in rep, "_replace_user_attr_methods does not record the classes it instruments")
+        pre = [_u(x) for x in f.body[:f.body.index(t)]]
+        need("self._user_classes_replaced = []" in pre, "get_model_from_str does not start with an empty per-parser record")
+        guard = True
     return except_restores, prim, guard
 
 
